@@ -21,6 +21,14 @@ def sim(p, ctx):
     oracles.c12(M, ctx)
 
 
+def sim_history(p, ctx):
+    from props.simcore import run_sim_history
+
+    M = run_sim_history(p, ctx, p["mode"])
+    if M.exc is None:
+        oracles.c12(M, ctx)
+
+
 def obligations(tier, seed):
     return profiles.obligations_for("C12", tier)
 
